@@ -26,6 +26,8 @@ import (
 type cfgCase struct {
 	Key        string `json:"key"`
 	Documented bool   `json:"documented"`
+	Before     []string `json:"before"` // the other lines of the .lfsconfig, all documented keys
+	After      []string `json:"after"`
 	Spelling   string `json:"spelling"`
 	Location   string `json:"location"`
 	AlsoGit    bool   `json:"alsoGit"`
@@ -367,6 +369,18 @@ func renderConfig(kvs [][2]string, spelling string) string {
 	return sb.String()
 }
 
+// neighbourLine is another, documented, line of the .lfsconfig under test; it names things no probe looks at.
+func neighbourLine(class string) [2]string {
+	switch class {
+	case "ctx.access":
+		return [2]string{"lfs.https://ctx.invalid/other/repo.access", "basic"}
+	case "ctx.remote.lfsurl":
+		return [2]string{"remote.ctxremote.lfsurl", "https://ctx.invalid/other/repo.git/info/lfs"}
+	default:
+		return [2]string{"lfs.fetchexclude", "ctx-matches-nothing-*"}
+	}
+}
+
 func runCfgCase(c *core.Ctx, lfsBin string, cs *cfgCase, idx int, probes map[string]cfgProbe) (*core.Violation, error) {
 	pr, ok := probes[cs.Key]
 	if !ok {
@@ -407,7 +421,15 @@ func runCfgCase(c *core.Ctx, lfsBin string, cs *cfgCase, idx int, probes map[str
 		}
 	}
 	// source 1: .lfsconfig at the given location
-	lfsconfig := renderConfig(pr.kv(w, 1), cs.Spelling)
+	var kvs [][2]string
+	for _, n := range cs.Before {
+		kvs = append(kvs, neighbourLine(n))
+	}
+	kvs = append(kvs, pr.kv(w, 1)...)
+	for _, n := range cs.After {
+		kvs = append(kvs, neighbourLine(n))
+	}
+	lfsconfig := renderConfig(kvs, cs.Spelling)
 	cfgFile := filepath.Join(w.repo, ".lfsconfig")
 	os.WriteFile(cfgFile, []byte(lfsconfig), 0o644)
 	switch cs.Location {
@@ -438,7 +460,7 @@ func runCfgCase(c *core.Ctx, lfsBin string, cs *cfgCase, idx int, probes map[str
 	}
 	seen, evidence := pr.observe(w)
 	mk := func(assertion, why string) *core.Violation {
-		return &core.Violation{Assertion: assertion, Fields: map[string]string{"key": cs.Key, "location": cs.Location, "spelling": cs.Spelling, "alsoGit": fmt.Sprint(cs.AlsoGit)},
+		return &core.Violation{Assertion: assertion, Fields: map[string]string{"key": cs.Key, "location": cs.Location, "spelling": cs.Spelling, "alsoGit": fmt.Sprint(cs.AlsoGit), "before": strings.Join(cs.Before, ","), "after": strings.Join(cs.After, ",")},
 			Detail: map[string]interface{}{"why": why, "case": cs, "lfsconfig": lfsconfig, "evidence": evidence, "acted_on_lfsconfig_value": seen[1], "acted_on_git_value": seen[2]}}
 	}
 	switch cs.Expect {
@@ -466,8 +488,17 @@ func init() {
 	registry["C11"] = func(c *core.Ctx, replay string) {
 		c.Level = "exploration"
 		lfs := c.BuildLFS()
-		r := c.TLC(core.TLCOpts{Module: "LfsConfig_MC", Cfg: "LfsConfig_q.cfg", Workers: 4, Timeout: 10 * time.Minute})
+		cfg := "LfsConfig_q.cfg"
+		if !c.Quick() {
+			cfg = "LfsConfig_t.cfg"
+		}
+		r := c.TLC(core.TLCOpts{Module: "LfsConfig_MC", Cfg: cfg, Workers: 4, Timeout: 10 * time.Minute})
 		c.MustPass(r, "LfsConfig")
+		if rm := c.TLC(core.TLCOpts{Module: "LfsConfig_MC", Cfg: "LfsConfig_stateful.cfg", Workers: 4, Timeout: 10 * time.Minute}); rm.Violated == "" {
+			c.Infra("non-vacuity: the variant whose allow decision survives from line to line violates nothing")
+		} else {
+			c.Set("spec_mutant_violates", rm.Violated)
+		}
 		c.Set("states", r.Distinct)
 		c.Set("transitions", r.Generated)
 		probes := cfgProbes()
@@ -522,7 +553,7 @@ func init() {
 		c.Set("evaluations", len(cases))
 		c.Set("distinct_nontrivial", len(cases))
 		c.Set("exhaustive", true)
-		c.Set("rule", "cases = complete product of spec/LfsConfig.tla: 33 key classes (documented and not) x {lower, mixed-case} spelling x .lfsconfig in {work tree, index only, HEAD only} x {not, also} set in Git's configuration; each observed through `git lfs env` or a sentinel")
+		c.Set("rule", "cases = every decided state of spec/LfsConfig.tla: 33 key classes (documented and not) x {lower, mixed-case} spelling x .lfsconfig in {work tree, index only, HEAD only} x {not, also} set in Git's configuration, plus each key class with up to MaxBefore lines before and MaxAfter after it drawn from three documented neighbours (lfs.<url>.access, remote.<name>.lfsurl, lfs.fetchexclude); each observed through `git lfs env` or a sentinel")
 		for i := 0; i < len(cases); i += len(cases)/5 + 1 {
 			c.Sample(cases[i])
 		}
